@@ -1,15 +1,19 @@
-"""C17 - saved curves, functions, conditions and process models load back unchanged  (BOUNDED, level `other`; DESIGN 3, C17)
+"""C17 - saved curves, functions, conditions and process models load back unchanged (DESIGN 3, C17; 2.11)
 
-Float formatting in pandas, pickling in joblib and JSON encoding decide this property and are outside any contract pvc can
-verify.  What is checked: (1) bounded: run-time round-trip contracts on the REAL save/load functions over an enumerated corpus
-(native, pvc/native/c17.py); (2) deductive (AST-level frame argument): every file a ProcessModel.save writes lies below the
-directory returned by _generate_process_path, which is created with mkdir(exist_ok=False)."""
+(1) deductive: the REAL save/load functions are executed against the persistence model pvc/iomodel.py (pathlib, open+json, joblib,
+pandas by ASSUMED contract); every persisted field of the re-loaded object is proved equal to the stored one for series of
+arbitrary length (generic element index jj) and arbitrary values;  (2) frame, on the same model: one save writes into ONE directory
+that this call created, and with the generated name forced to collide (clock hash pinned) a second save neither alters nor adds to
+the first directory;  (3) bounded,
+labelled: native round trips through the real libraries over an enumerated corpus (float formatting, pickling and csv parsing are
+outside any contract pvc can verify)."""
 import ast
 from .common import *
+from ..symex import Raised
 
 ID = "C17"
-MIN_OBLIGATIONS = 4
-LEVEL = 'other'
+MIN_OBLIGATIONS = 400
+LEVEL = 'proof'
 
 
 def same_value(cx, name, pc, a, b, function, what):
@@ -194,6 +198,171 @@ def curve_round_trips(cx):
             if rs: cx.cover(tag, rs[0].pc)
 
 
+def process_round_trips(cx):
+    from ..symex import Seq, PList, Fn
+    from ..contracts import process as CP
+    from .. import iomodel
+    src = cx.src
+    for q in ('ProcessModel.save', 'ProcessModel.load', 'ProcessModel._generate_process_path'): cx.under_contract(q)
+    N = var('N', 'I')
+    KG = 'kg/(m2*h*kPa)'
+    series = ('feed_temperature', 'feed_mass', 'time', 'feed_evaporation_heat', 'permeate_condensation_heat')
+    def pf(t):
+        return Obj('PervaporationFunction', dict(n=var('n' + t, 'I'), m=var('m' + t, 'I'), alpha=var('alpha' + t), a=Seq(var('la' + t, 'I'), lambda i: app('a' + t, lift(i)), tag=('a' + t,)),
+                                                 b=Seq(var('lb' + t, 'I'), lambda i: app('b' + t, lift(i)), tag=('b' + t,))), owner='external')
+    for safe in (False, True):
+        for mode in ('vacuum', 'temperature', 'pressure'):
+            for fits in (True, False):
+                if not fits and mode != 'vacuum': continue
+                tag = "process.%s.%s.%s" % ('json' if safe else 'binary', mode, 'fits' if fits else 'nofits')
+                Tp = var('Tp') if mode == 'temperature' else None; pp = var('pp') if mode == 'pressure' else None
+                orig = {}
+                def run(ex, Tp=Tp, pp=pp, orig=orig, safe=safe, fits=fits, mode=mode):
+                    mix = ex.getattr(Fn('class', name='Mixtures'), 'H2O_EtOH')
+                    comp = lambda nm: Seq(N, lambda i: Obj('Composition', dict(p=app(nm, lift(i)), type='weight'), owner='external'), owner='external')
+                    num = lambda nm: Seq(N, lambda i: app(nm, lift(i)), owner='external')
+                    cond = W.conditions(src, comp_type='weight', perm_T=mode == 'temperature', perm_p=mode == 'pressure')
+                    f0, f1 = pf('0'), pf('1')
+                    m = W.mk(src, 'ProcessModel', mixture=mix, membrane_name='m', feed_temperature=num('ft'), feed_compositions=comp('x'), permeate_composition=comp('y'),
+                             permeate_temperature=Seq(N, lambda i: Tp, owner='external'), permeate_pressure=Seq(N, lambda i: pp, owner='external'), feed_mass=num('fm'),
+                             partial_fluxes=Seq(N, lambda i: (app('J1', lift(i)), app('J2', lift(i))), owner='external'),
+                             permeances=Seq(N, lambda i: (Obj('Permeance', dict(value=app('P1', lift(i)), units=KG), owner='external'), Obj('Permeance', dict(value=app('P2', lift(i)), units=KG), owner='external')), owner='external'),
+                             time=num('t'), feed_evaporation_heat=num('he'), permeate_condensation_heat=num('hc') if mode != 'vacuum' else Seq(N, lambda i: None, owner='external'),
+                             initial_conditions=cond, permeance_fits=(f0, f1) if fits else None, comments='c', membrane_path=None)
+                    orig.update(model=m, mix=mix, cond=cond, fits=(f0, f1))
+                    ex.assume(band(JJ >= 0, JJ < N), 'generic element index')
+                    inv = []
+                    for i_ in (JJ, lift(0), var('k', 'I')):
+                        inv += [app('x', i_) >= 0, app('x', i_) <= 1, app('y', i_) >= 0, app('y', i_) <= 1, app('P1', i_) >= 0, app('P2', i_) >= 0]
+                    inv += [var('x0') >= 0, var('x0') <= 1]
+                    ex.assume(band(*inv), 'class invariants of the stored objects')
+                    mdir = iomodel.mkpath((Opaque('membrane dir'),))
+                    ex.call_function(src.find('ProcessModel.save'), [mdir], dict(is_safe=safe), self_obj=m, inline=True)
+                    F = iomodel.fs(ex)
+                    csvs = [pth for how, pth in F['writes'] if how == 'csv']
+                    if len(csvs) != 1: raise Unsupported("ProcessModel.save wrote %d csv files" % len(csvs))
+                    pdir = iomodel.mkpath(csvs[0].f['parts'][:-1])
+                    orig['files'] = [(how, pth.f['parts'][-1]) for how, pth in F['writes']]
+                    parents = {iomodel.pkey(pth)[:-1] for how, pth in F['writes']}
+                    orig['frame'] = dict(parents=len(parents), created=all(q in F['dirs'] for q in parents), below_membrane=all(len(q) >= 2 and q[0] == iomodel.pkey(mdir)[0] for q in parents), files=len(F['writes']))
+                    back = ex.call_function(src.find('ProcessModel.load'), [pdir], dict(is_safe=safe), cls='ProcessModel', inline=True)
+                    obs = dict(model=back)
+                    for fld in series + ('feed_compositions', 'permeate_composition', 'partial_fluxes', 'permeances'):
+                        obs[fld] = observe(ex, back.f[fld])
+                    return obs
+                ps = cx.explore(run, contracts={'__class_invariants__': CP.CLASS_INVARIANTS}, pre=[N >= 1, var('la0', 'I') >= 0, var('lb0', 'I') >= 0, var('la1', 'I') >= 0, var('lb1', 'I') >= 0])
+                fn = 'ProcessModel.load'
+                none_raise(cx, tag + ".never-raises", ps, function=fn, statement="saving a process model and re-loading its directory does not fail (N >= 1 steps)")
+                rs = returns(ps)
+                cx.ob(tag + ".paths", [], blit(len(rs) >= 1), kind='paths', function=fn)
+                m0 = orig.get('model'); mix = orig.get('mix')
+                if m0 is None: continue
+                fr = orig.get('frame', {})
+                cx.ob(tag + ".save.writes-below-one-directory-it-created", [], blit(fr.get('parents') == 1 and fr.get('created') and fr.get('below_membrane') and fr.get('files', 0) >= 4), kind='frame', function='ProcessModel.save',
+                      found=str(fr), statement="every file written by one save lies in ONE directory below the membrane directory, and that directory was created by this call")
+                for k, r in enumerate(rs):
+                    o = r.value; b0 = o['model']; t = "%s.%d" % (tag, k)
+                    ok = isinstance(b0, Obj) and b0.cls == 'ProcessModel'
+                    cx.ob(t + ".is-a-process-model", [], blit(ok), kind='paths', function=fn)
+                    if not ok: continue
+                    cx.ob(t + ".mixture", [], blit(b0.f['mixture'] is mix), kind='paths', function=fn, statement="the re-loaded model refers to the same built-in mixture")
+                    same_value(cx, t + ".membrane_name", r.pc, m0.f['membrane_name'], b0.f['membrane_name'], fn, "membrane name")
+                    # permeate condition: the scalar that re-loads equals the stored (constant) series
+                    same_value(cx, t + ".permeate_temperature", r.pc, Tp, b0.f['permeate_temperature'], fn, "permeate temperature")
+                    same_value(cx, t + ".permeate_pressure", r.pc, pp, b0.f['permeate_pressure'], fn, "permeate pressure")
+                    for fld, sym in (('feed_temperature', 'ft'), ('feed_mass', 'fm'), ('time', 't'), ('feed_evaporation_heat', 'he'), ('permeate_condensation_heat', 'hc')):
+                        n, el = o[fld]
+                        cx.ob("%s.%s.length" % (t, fld), r.pc, eq(lift(n), N), function=fn, statement="series %s re-loads with the same length" % fld)
+                        if fld == 'permeate_condensation_heat' and mode == 'vacuum':
+                            cx.ob("%s.%s.element" % (t, fld), [], blit(el is None or el is iomodel.NAN), kind='paths', function=fn, statement="an absent condensation heat re-loads as absent (None/NaN), not as a number")
+                        elif is_num(el):
+                            cx.ob("%s.%s.element" % (t, fld), r.pc, eq(lift(el), app(sym, JJ)), function=fn, statement="%s[j] re-loads unchanged" % fld)
+                        else:
+                            cx.ob("%s.%s.element" % (t, fld), [], FALSE, kind='paths', function=fn, statement="%s[j] re-loads as a number (found %r)" % (fld, el))
+                    for fld, sym in (('feed_compositions', 'x'), ('permeate_composition', 'y')):
+                        n, el = o[fld]
+                        cx.ob("%s.%s.length" % (t, fld), r.pc, eq(lift(n), N), function=fn)
+                        okc = isinstance(el, Obj) and el.cls == 'Composition' and is_num(el.f['p'])
+                        cx.ob("%s.%s.element-type" % (t, fld), [], blit(okc and el.f['type'] == 'weight'), kind='paths', function=fn)
+                        if okc: cx.ob("%s.%s.element" % (t, fld), r.pc, eq(lift(el.f['p']), app(sym, JJ)), function=fn, statement="%s[j] re-loads unchanged" % fld)
+                    n, el = o['partial_fluxes']
+                    cx.ob(t + ".fluxes.length", r.pc, eq(lift(n), N), function=fn)
+                    okf = isinstance(el, tuple) and len(el) == 2 and all(is_num(x) for x in el)
+                    cx.ob(t + ".fluxes.shape", [], blit(okf), kind='paths', function=fn)
+                    if okf: cx.ob(t + ".fluxes.element", r.pc, band(eq(lift(el[0]), app('J1', JJ)), eq(lift(el[1]), app('J2', JJ))), function=fn, statement="both partial fluxes of step j re-load unchanged")
+                    n, el = o['permeances']
+                    cx.ob(t + ".permeances.length", r.pc, eq(lift(n), N), function=fn)
+                    okp = isinstance(el, tuple) and len(el) == 2 and all(isinstance(x, Obj) and x.cls == 'Permeance' and is_num(x.f['value']) for x in el)
+                    cx.ob(t + ".permeances.shape", [], blit(okp), kind='paths', function=fn)
+                    if okp:
+                        cx.ob(t + ".permeances.element", r.pc, band(eq(lift(el[0].f['value']), app('P1', JJ)), eq(lift(el[1].f['value']), app('P2', JJ))), function=fn, statement="both permeances of step j re-load unchanged")
+                        cx.ob(t + ".permeances.units", [], blit(el[0].f['units'] == KG and el[1].f['units'] == KG), kind='paths', function=fn)
+                    # side files
+                    ic = b0.f['initial_conditions']; c0 = orig['cond']
+                    okic = isinstance(ic, Obj) and ic.cls == 'Conditions'
+                    cx.ob(t + ".initial-conditions.present", [], blit(okic), kind='paths', function=fn)
+                    if okic:
+                        for fld in ('membrane_area', 'initial_feed_temperature', 'initial_feed_amount', 'permeate_temperature', 'permeate_pressure'):
+                            same_value(cx, "%s.initial-conditions.%s" % (t, fld), r.pc, c0.f[fld], ic.f.get(fld), fn, "initial conditions: %s" % fld)
+                        icc = ic.f.get('initial_feed_composition')
+                        if isinstance(icc, Obj):
+                            same_value(cx, t + ".initial-conditions.composition.p", r.pc, c0.f['initial_feed_composition'].f['p'], icc.f['p'], fn, "initial feed composition")
+                            same_value(cx, t + ".initial-conditions.composition.type", r.pc, c0.f['initial_feed_composition'].f['type'], icc.f['type'], fn, "initial feed composition type")
+                    pfs = b0.f['permeance_fits']
+                    okpf = isinstance(pfs, tuple) and len(pfs) == 2 and all(isinstance(x, Obj) and x.cls == 'PervaporationFunction' for x in pfs)
+                    cx.ob(t + ".permeance-fits.present", [], blit(okpf), kind='paths', function=fn)
+                    if okpf and fits:
+                        for i_, (f_o, f_b) in enumerate(zip(orig['fits'], pfs)):
+                            for fld in ('n', 'm', 'alpha', 'a', 'b'):
+                                same_value(cx, "%s.permeance-fits.%d.%s" % (t, i_, fld), r.pc, f_o.f[fld], f_b.f.get(fld), fn, "permeance fit %d: %s" % (i_, fld))
+                if rs: cx.cover(tag, rs[0].pc)
+
+
+def collision_obligations(cx):
+    """forced directory-name collision: with the clock hash pinned to one value, a second save (of a different model) into the same
+    membrane directory must not write into, or alter, the directory of the first save"""
+    from ..symex import Seq, Fn
+    from ..contracts import process as CP
+    from .. import iomodel
+    src = cx.src
+    N = var('N', 'I'); KG = 'kg/(m2*h*kPa)'
+    def model(ex, sfx, mix):
+        comp = lambda nm: Seq(N, lambda i: Obj('Composition', dict(p=app(nm + sfx, lift(i)), type='weight'), owner='external'), owner='external')
+        num = lambda nm: Seq(N, lambda i: app(nm + sfx, lift(i)), owner='external')
+        return W.mk(src, 'ProcessModel', mixture=mix, membrane_name='m', feed_temperature=num('ft'), feed_compositions=comp('x'), permeate_composition=comp('y'),
+                    permeate_temperature=Seq(N, lambda i: None, owner='external'), permeate_pressure=Seq(N, lambda i: None, owner='external'), feed_mass=num('fm'),
+                    partial_fluxes=Seq(N, lambda i: (app('J1' + sfx, lift(i)), app('J2' + sfx, lift(i))), owner='external'),
+                    permeances=Seq(N, lambda i: (Obj('Permeance', dict(value=app('P1' + sfx, lift(i)), units=KG), owner='external'), Obj('Permeance', dict(value=app('P2' + sfx, lift(i)), units=KG), owner='external')), owner='external'),
+                    time=num('t'), feed_evaporation_heat=num('he'), permeate_condensation_heat=Seq(N, lambda i: None, owner='external'),
+                    initial_conditions=W.conditions(src), permeance_fits=None, comments='c', membrane_path=None)
+    for safe in (False, True):
+        tag = "collision.%s" % ('json' if safe else 'binary')
+        def run(ex, safe=safe):
+            mix = ex.getattr(Fn('class', name='Mixtures'), 'H2O_EtOH')
+            mdir = iomodel.mkpath((Opaque('membrane dir'),))
+            ex.call_function(src.find('ProcessModel.save'), [mdir], dict(is_safe=safe), self_obj=model(ex, 'A', mix), inline=True)
+            F = iomodel.fs(ex)
+            before = dict(F['files']); nwrites = len(F['writes'])
+            try:
+                ex.call_function(src.find('ProcessModel.save'), [mdir], dict(is_safe=safe), self_obj=model(ex, 'B', mix), inline=True)
+                second = 'returned'
+            except Raised as r:
+                second = r.exc
+            after = dict(F['files'])
+            changed = [k for k in before if after.get(k) is not before[k]]
+            dirs_first = {k[:-1] for k in before}
+            intruders = [k for k in after if k not in before and k[:-1] in dirs_first]
+            return dict(second=second, changed=len(changed), files_first=len(before), intruders=len(intruders), writes_second=len(F['writes']) - nwrites)
+        ps = cx.explore(run, contracts={'__class_invariants__': CP.CLASS_INVARIANTS, '__fixed_clock__': 1234567}, pre=[N >= 1])
+        rs = returns(ps)
+        fn = 'ProcessModel.save'
+        cx.ob(tag + ".paths", [], blit(len(rs) >= 1 and all(r.value['files_first'] >= 4 for r in rs)), kind='paths', function=fn, found=str([r.value for r in rs])[:300])
+        cx.ob(tag + ".first-directory-unaltered", [], blit(all(r.value['changed'] == 0 for r in rs)), kind='frame', function=fn, found=str([r.value for r in rs])[:300],
+              statement="with the generated directory name forced to collide, the second save leaves every file of the first save as it was")
+        cx.ob(tag + ".nothing-added-to-the-first-directory", [], blit(all(r.value['intruders'] == 0 for r in rs)), kind='frame', function=fn, found=str([r.value for r in rs])[:300],
+              statement="with the generated directory name forced to collide, the second save creates no file below the directory of the first save")
+
+
 def _plen(ex, v):
     from ..symex import _len
     return _len(ex, v)
@@ -203,48 +372,10 @@ def obligations(cx):
     src = cx.src
     symbolic_round_trips(cx)
     curve_round_trips(cx)
-    gp = cx.under_contract('ProcessModel._generate_process_path', how="AST-level frame argument")
-    sv = cx.under_contract('ProcessModel.save', how="AST-level frame argument")
-    # _generate_process_path returns a path it has just created with exist_ok=False
-    mk = [n for n in ast.walk(gp) if isinstance(n, ast.Call) and isinstance(n.func, ast.Attribute) and n.func.attr == 'mkdir']
-    rets = [n for n in ast.walk(gp) if isinstance(n, ast.Return)]
-    ok = False
-    if len(rets) == 1 and isinstance(rets[0].value, ast.Name):
-        rn = rets[0].value.id
-        for c in mk:
-            if isinstance(c.func.value, ast.Name) and c.func.value.id == rn:
-                kws = {k.arg: k.value for k in c.keywords}
-                if isinstance(kws.get('exist_ok'), ast.Constant) and kws['exist_ok'].value is False: ok = True
-        assigns = [n for n in ast.walk(gp) if isinstance(n, ast.Assign) and any(isinstance(t, ast.Name) and t.id == rn for t in n.targets)]
-        ok = ok and len(assigns) == 1
-    cx.ob("process-path.created-exclusively", [], blit(ok), kind='scan', function='ProcessModel._generate_process_path',
-          statement="the returned process directory is created by mkdir(exist_ok=False) (assumed pathlib contract: raises if it exists), so it never is a previously saved directory")
-    # save(): every write goes below that directory
-    pp = [n for n in ast.walk(sv) if isinstance(n, ast.Assign) and isinstance(n.value, ast.Call) and '_generate_process_path' in ast.unparse(n.value.func)]
-    okp = len(pp) == 1 and isinstance(pp[0].targets[0], ast.Name)
-    pname = pp[0].targets[0].id if okp else None
-    writes = []
-    for n in ast.walk(sv):
-        if isinstance(n, ast.Call) and isinstance(n.func, ast.Attribute) and n.func.attr in ('to_csv', 'save', 'safe_save', 'dump', 'to_json', 'to_pickle', 'write_text', 'write_bytes', 'mkdir', 'open'):
-            writes.append(n)
-        if isinstance(n, ast.Call) and isinstance(n.func, ast.Name) and n.func.id == 'open': writes.append(n)
-    bad = []
-    for w in writes:
-        if w.func.attr == 'mkdir' if isinstance(w.func, ast.Attribute) else False:
-            kws = {k.arg: k.value for k in w.keywords}
-            continue          # directories: results/ (exist_ok=True, no file content) and the exclusive process directory
-        args = list(w.args) + [k.value for k in w.keywords]
-        target = args[-1] if w.func.attr == 'dump' else (args[0] if args else None)
-        txt = ast.unparse(target) if target is not None else ''
-        if not (pname and txt.replace('(', '').strip().startswith(pname + ' /')): bad.append(ast.unparse(w)[:100])
-    cx.ob("save.writes-only-below-the-new-directory", [], blit(okp and len(writes) >= 5 and not bad), kind='scan', function='ProcessModel.save', found=str(bad),
-          statement="every file written by ProcessModel.save is `process_path / <name>` with process_path the freshly created directory")
-    reassigned = [n for n in ast.walk(sv) if isinstance(n, (ast.Assign, ast.AugAssign)) and any(isinstance(t, ast.Name) and t.id == pname for t in (n.targets if isinstance(n, ast.Assign) else [n.target]))]
-    cx.ob("save.process-path-assigned-once", [], blit(len(reassigned) == 1), kind='scan', function='ProcessModel.save')
-    cx.ob("lemma.save-never-writes-into-an-existing-process-directory", [], TRUE, kind='lemma',
-          statement="from the two scans and the pathlib contract: a save cannot write into or alter a previously saved process directory")
+    process_round_trips(cx)
+    collision_obligations(cx)
     cx.assume_note("pathlib.Path.mkdir(exist_ok=False) raises FileExistsError if the directory exists (assumed)")
-    cx.assume_note("pandas.to_csv/read_csv, joblib.dump/load and json are outside the contracts: the round trip itself is only checked on the bounded native corpus")
+    cx.assume_note("the real text/binary formats of pandas.to_csv/read_csv, joblib.dump/load and json are outside the contracts: the 1e-9 agreement through them is only checked on the bounded native corpus")
 
 
 def native_checks(cx, results):
